@@ -46,3 +46,273 @@ func lemmaMirrorResponseBatchItem(pv, out *ResponseBatchItem) (err error, end bo
 	err = out.TagDecodeTTLV(&d, TagBatchItem)
 	return err, ttlv.VerifTapeEnd(&d)
 }
+
+// Credential: the reflective encoder of Credential calls the hand-written CredentialValue.TagEncodeTTLV; the
+// hand-written Credential.TagDecodeTTLV selects the variant from the credential type.
+//
+//@ lemma lemmaMirrorCredentialPassword
+//@   requires c != nil && out != nil && c != out && !tapeDropped
+//@   requires c.CredentialType == CredentialTypeUsernameAndPassword && c.CredentialValue.UserPassword != nil && c.CredentialValue.Device == nil && c.CredentialValue.Attestation == nil
+//@   requires out.CredentialType == 0 && out.CredentialValue.UserPassword == nil && out.CredentialValue.Device == nil && out.CredentialValue.Attestation == nil
+//@   usebody (*Encoder).Struct$1
+//@   usebody (*Decoder).Struct$1
+//@   ensures err == nil && end && !tapeDropped
+//@   ensures out.CredentialType == c.CredentialType && out.CredentialValue.UserPassword == c.CredentialValue.UserPassword && out.CredentialValue.Device == nil && out.CredentialValue.Attestation == nil
+
+func lemmaMirrorCredentialPassword(c, out *Credential) (err error, end bool) {
+	e := ttlv.VerifModelEncoder()
+	e.TagAny(TagCredential, c)
+	d := ttlv.VerifModelDecoder(&e)
+	err = out.TagDecodeTTLV(&d, TagCredential)
+	return err, ttlv.VerifTapeEnd(&d)
+}
+
+//@ lemma lemmaMirrorCredentialDevice
+//@   requires c != nil && out != nil && c != out && !tapeDropped
+//@   requires c.CredentialType == CredentialTypeDevice && c.CredentialValue.UserPassword == nil && c.CredentialValue.Device != nil && c.CredentialValue.Attestation == nil
+//@   requires out.CredentialType == 0 && out.CredentialValue.UserPassword == nil && out.CredentialValue.Device == nil && out.CredentialValue.Attestation == nil
+//@   usebody (*Encoder).Struct$1
+//@   usebody (*Decoder).Struct$1
+//@   ensures err == nil && end && !tapeDropped
+//@   ensures out.CredentialType == c.CredentialType && out.CredentialValue.Device == c.CredentialValue.Device && out.CredentialValue.UserPassword == nil && out.CredentialValue.Attestation == nil
+
+func lemmaMirrorCredentialDevice(c, out *Credential) (err error, end bool) {
+	e := ttlv.VerifModelEncoder()
+	e.TagAny(TagCredential, c)
+	d := ttlv.VerifModelDecoder(&e)
+	err = out.TagDecodeTTLV(&d, TagCredential)
+	return err, ttlv.VerifTapeEnd(&d)
+}
+
+//@ lemma lemmaMirrorCredentialAttestation
+//@   requires c != nil && out != nil && c != out && !tapeDropped
+//@   requires c.CredentialType == CredentialTypeAttestation && c.CredentialValue.UserPassword == nil && c.CredentialValue.Device == nil && c.CredentialValue.Attestation != nil
+//@   requires out.CredentialType == 0 && out.CredentialValue.UserPassword == nil && out.CredentialValue.Device == nil && out.CredentialValue.Attestation == nil
+//@   usebody (*Encoder).Struct$1
+//@   usebody (*Decoder).Struct$1
+//@   ensures err == nil && end && !tapeDropped
+//@   ensures out.CredentialType == c.CredentialType && out.CredentialValue.Attestation == c.CredentialValue.Attestation && out.CredentialValue.UserPassword == nil && out.CredentialValue.Device == nil
+
+func lemmaMirrorCredentialAttestation(c, out *Credential) (err error, end bool) {
+	e := ttlv.VerifModelEncoder()
+	e.TagAny(TagCredential, c)
+	d := ttlv.VerifModelDecoder(&e)
+	err = out.TagDecodeTTLV(&d, TagCredential)
+	return err, ttlv.VerifTapeEnd(&d)
+}
+
+// KeyBlock: reflective encoder (with the hand-written KeyValue / KeyMaterial encoders inside) against the
+// hand-written KeyBlock / KeyValue / PlainKeyValue / KeyMaterial decoders, one lemma per shape of the key value.
+
+//@ lemma lemmaMirrorKeyBlockNoValue
+//@   requires kb != nil && out != nil && kb != out && !tapeDropped && kb.KeyValue == nil
+//@   requires out.KeyFormatType == 0 && out.KeyCompressionType == 0 && out.KeyValue == nil && out.CryptographicAlgorithm == 0 && out.CryptographicLength == 0 && out.KeyWrappingData == nil
+//@   usebody (*Encoder).Struct$1
+//@   usebody (*Decoder).Struct$1
+//@   ensures err == nil && end && !tapeDropped
+//@   ensures out.KeyFormatType == kb.KeyFormatType && out.KeyCompressionType == kb.KeyCompressionType && out.CryptographicAlgorithm == kb.CryptographicAlgorithm && out.CryptographicLength == kb.CryptographicLength && out.KeyWrappingData == kb.KeyWrappingData && out.KeyValue == nil
+
+func lemmaMirrorKeyBlockNoValue(kb, out *KeyBlock) (err error, end bool) {
+	e := ttlv.VerifModelEncoder()
+	e.TagAny(TagKeyBlock, kb)
+	d := ttlv.VerifModelDecoder(&e)
+	err = out.TagDecodeTTLV(&d, TagKeyBlock)
+	return err, ttlv.VerifTapeEnd(&d)
+}
+
+//@ lemma lemmaMirrorKeyBlockWrapped
+//@   requires kb != nil && out != nil && kb != out && !tapeDropped && kb.KeyValue != nil && kb.KeyValue.Wrapped != nil && kb.KeyValue.Plain == nil
+//@   requires out.KeyFormatType == 0 && out.KeyCompressionType == 0 && out.KeyValue == nil && out.CryptographicAlgorithm == 0 && out.CryptographicLength == 0 && out.KeyWrappingData == nil
+//@   usebody (*Encoder).Struct$1
+//@   usebody (*Decoder).Struct$1
+//@   ensures err == nil && end && !tapeDropped
+//@   ensures out.KeyFormatType == kb.KeyFormatType && out.KeyCompressionType == kb.KeyCompressionType && out.CryptographicAlgorithm == kb.CryptographicAlgorithm && out.CryptographicLength == kb.CryptographicLength && out.KeyWrappingData == kb.KeyWrappingData
+//@   ensures out.KeyValue != nil && out.KeyValue.Plain == nil && out.KeyValue.Wrapped != nil && len(*out.KeyValue.Wrapped) == len(*kb.KeyValue.Wrapped) && arr(*out.KeyValue.Wrapped) == arr(*kb.KeyValue.Wrapped)
+
+func lemmaMirrorKeyBlockWrapped(kb, out *KeyBlock) (err error, end bool) {
+	e := ttlv.VerifModelEncoder()
+	e.TagAny(TagKeyBlock, kb)
+	d := ttlv.VerifModelDecoder(&e)
+	err = out.TagDecodeTTLV(&d, TagKeyBlock)
+	return err, ttlv.VerifTapeEnd(&d)
+}
+
+//@ lemma lemmaMirrorKeyBlockRaw
+//@   requires kb != nil && out != nil && kb != out && !tapeDropped && kb.KeyFormatType == KeyFormatTypeRaw
+//@   requires kb.KeyValue != nil && kb.KeyValue.Wrapped == nil && kb.KeyValue.Plain != nil
+//@   requires kb.KeyValue.Plain.KeyMaterial.Bytes != nil && kb.KeyValue.Plain.KeyMaterial.TransparentSymmetricKey == nil && kb.KeyValue.Plain.KeyMaterial.TransparentRSAPrivateKey == nil && kb.KeyValue.Plain.KeyMaterial.TransparentRSAPublicKey == nil && kb.KeyValue.Plain.KeyMaterial.TransparentECDSAPrivateKey == nil && kb.KeyValue.Plain.KeyMaterial.TransparentECDSAPublicKey == nil && kb.KeyValue.Plain.KeyMaterial.TransparentECPrivateKey == nil && kb.KeyValue.Plain.KeyMaterial.TransparentECPublicKey == nil
+//@   requires out.KeyFormatType == 0 && out.KeyCompressionType == 0 && out.KeyValue == nil && out.CryptographicAlgorithm == 0 && out.CryptographicLength == 0 && out.KeyWrappingData == nil
+//@   usebody (*Encoder).Struct$1
+//@   usebody (*Decoder).Struct$1
+//@   ensures err == nil && end && !tapeDropped
+//@   ensures out.KeyFormatType == kb.KeyFormatType && out.KeyCompressionType == kb.KeyCompressionType && out.CryptographicAlgorithm == kb.CryptographicAlgorithm && out.CryptographicLength == kb.CryptographicLength && out.KeyWrappingData == kb.KeyWrappingData
+//@   ensures out.KeyValue != nil && out.KeyValue.Wrapped == nil && out.KeyValue.Plain != nil && out.KeyValue.Plain.KeyMaterial.Bytes != nil && len(*out.KeyValue.Plain.KeyMaterial.Bytes) == len(*kb.KeyValue.Plain.KeyMaterial.Bytes) && arr(*out.KeyValue.Plain.KeyMaterial.Bytes) == arr(*kb.KeyValue.Plain.KeyMaterial.Bytes)
+//@   ensures len(kb.KeyValue.Plain.Attribute) > 0 ==> len(out.KeyValue.Plain.Attribute) == len(kb.KeyValue.Plain.Attribute) && arr(out.KeyValue.Plain.Attribute) == arr(kb.KeyValue.Plain.Attribute)
+
+func lemmaMirrorKeyBlockRaw(kb, out *KeyBlock) (err error, end bool) {
+	e := ttlv.VerifModelEncoder()
+	e.TagAny(TagKeyBlock, kb)
+	d := ttlv.VerifModelDecoder(&e)
+	err = out.TagDecodeTTLV(&d, TagKeyBlock)
+	return err, ttlv.VerifTapeEnd(&d)
+}
+
+//@ lemma lemmaMirrorKeyBlockTransparentSymmetric
+//@   requires kb != nil && out != nil && kb != out && !tapeDropped && kb.KeyFormatType == KeyFormatTypeTransparentSymmetricKey
+//@   requires kb.KeyValue != nil && kb.KeyValue.Wrapped == nil && kb.KeyValue.Plain != nil
+//@   requires kb.KeyValue.Plain.KeyMaterial.Bytes == nil && kb.KeyValue.Plain.KeyMaterial.TransparentSymmetricKey != nil && kb.KeyValue.Plain.KeyMaterial.TransparentRSAPrivateKey == nil && kb.KeyValue.Plain.KeyMaterial.TransparentRSAPublicKey == nil && kb.KeyValue.Plain.KeyMaterial.TransparentECDSAPrivateKey == nil && kb.KeyValue.Plain.KeyMaterial.TransparentECDSAPublicKey == nil && kb.KeyValue.Plain.KeyMaterial.TransparentECPrivateKey == nil && kb.KeyValue.Plain.KeyMaterial.TransparentECPublicKey == nil
+//@   requires out.KeyFormatType == 0 && out.KeyCompressionType == 0 && out.KeyValue == nil && out.CryptographicAlgorithm == 0 && out.CryptographicLength == 0 && out.KeyWrappingData == nil
+//@   usebody (*Encoder).Struct$1
+//@   usebody (*Decoder).Struct$1
+//@   ensures err == nil && end && !tapeDropped
+//@   ensures out.KeyFormatType == kb.KeyFormatType && out.KeyCompressionType == kb.KeyCompressionType && out.CryptographicAlgorithm == kb.CryptographicAlgorithm && out.CryptographicLength == kb.CryptographicLength && out.KeyWrappingData == kb.KeyWrappingData
+//@   ensures out.KeyValue != nil && out.KeyValue.Wrapped == nil && out.KeyValue.Plain != nil && out.KeyValue.Plain.KeyMaterial.TransparentSymmetricKey == kb.KeyValue.Plain.KeyMaterial.TransparentSymmetricKey
+//@   ensures len(kb.KeyValue.Plain.Attribute) > 0 ==> len(out.KeyValue.Plain.Attribute) == len(kb.KeyValue.Plain.Attribute) && arr(out.KeyValue.Plain.Attribute) == arr(kb.KeyValue.Plain.Attribute)
+
+func lemmaMirrorKeyBlockTransparentSymmetric(kb, out *KeyBlock) (err error, end bool) {
+	e := ttlv.VerifModelEncoder()
+	e.TagAny(TagKeyBlock, kb)
+	d := ttlv.VerifModelDecoder(&e)
+	err = out.TagDecodeTTLV(&d, TagKeyBlock)
+	return err, ttlv.VerifTapeEnd(&d)
+}
+
+//@ lemma lemmaMirrorKeyBlockTransparentRSAPrivate
+//@   requires kb != nil && out != nil && kb != out && !tapeDropped && kb.KeyFormatType == KeyFormatTypeTransparentRSAPrivateKey
+//@   requires kb.KeyValue != nil && kb.KeyValue.Wrapped == nil && kb.KeyValue.Plain != nil
+//@   requires kb.KeyValue.Plain.KeyMaterial.Bytes == nil && kb.KeyValue.Plain.KeyMaterial.TransparentSymmetricKey == nil && kb.KeyValue.Plain.KeyMaterial.TransparentRSAPrivateKey != nil && kb.KeyValue.Plain.KeyMaterial.TransparentRSAPublicKey == nil && kb.KeyValue.Plain.KeyMaterial.TransparentECDSAPrivateKey == nil && kb.KeyValue.Plain.KeyMaterial.TransparentECDSAPublicKey == nil && kb.KeyValue.Plain.KeyMaterial.TransparentECPrivateKey == nil && kb.KeyValue.Plain.KeyMaterial.TransparentECPublicKey == nil
+//@   requires out.KeyFormatType == 0 && out.KeyCompressionType == 0 && out.KeyValue == nil && out.CryptographicAlgorithm == 0 && out.CryptographicLength == 0 && out.KeyWrappingData == nil
+//@   usebody (*Encoder).Struct$1
+//@   usebody (*Decoder).Struct$1
+//@   ensures err == nil && end && !tapeDropped
+//@   ensures out.KeyFormatType == kb.KeyFormatType && out.KeyCompressionType == kb.KeyCompressionType && out.CryptographicAlgorithm == kb.CryptographicAlgorithm && out.CryptographicLength == kb.CryptographicLength && out.KeyWrappingData == kb.KeyWrappingData
+//@   ensures out.KeyValue != nil && out.KeyValue.Wrapped == nil && out.KeyValue.Plain != nil && out.KeyValue.Plain.KeyMaterial.TransparentRSAPrivateKey == kb.KeyValue.Plain.KeyMaterial.TransparentRSAPrivateKey
+//@   ensures len(kb.KeyValue.Plain.Attribute) > 0 ==> len(out.KeyValue.Plain.Attribute) == len(kb.KeyValue.Plain.Attribute) && arr(out.KeyValue.Plain.Attribute) == arr(kb.KeyValue.Plain.Attribute)
+
+func lemmaMirrorKeyBlockTransparentRSAPrivate(kb, out *KeyBlock) (err error, end bool) {
+	e := ttlv.VerifModelEncoder()
+	e.TagAny(TagKeyBlock, kb)
+	d := ttlv.VerifModelDecoder(&e)
+	err = out.TagDecodeTTLV(&d, TagKeyBlock)
+	return err, ttlv.VerifTapeEnd(&d)
+}
+
+//@ lemma lemmaMirrorKeyBlockTransparentECPublic
+//@   requires kb != nil && out != nil && kb != out && !tapeDropped && kb.KeyFormatType == KeyFormatTypeTransparentECPublicKey
+//@   requires kb.KeyValue != nil && kb.KeyValue.Wrapped == nil && kb.KeyValue.Plain != nil
+//@   requires kb.KeyValue.Plain.KeyMaterial.Bytes == nil && kb.KeyValue.Plain.KeyMaterial.TransparentSymmetricKey == nil && kb.KeyValue.Plain.KeyMaterial.TransparentRSAPrivateKey == nil && kb.KeyValue.Plain.KeyMaterial.TransparentRSAPublicKey == nil && kb.KeyValue.Plain.KeyMaterial.TransparentECDSAPrivateKey == nil && kb.KeyValue.Plain.KeyMaterial.TransparentECDSAPublicKey == nil && kb.KeyValue.Plain.KeyMaterial.TransparentECPrivateKey == nil && kb.KeyValue.Plain.KeyMaterial.TransparentECPublicKey != nil
+//@   requires out.KeyFormatType == 0 && out.KeyCompressionType == 0 && out.KeyValue == nil && out.CryptographicAlgorithm == 0 && out.CryptographicLength == 0 && out.KeyWrappingData == nil
+//@   usebody (*Encoder).Struct$1
+//@   usebody (*Decoder).Struct$1
+//@   ensures err == nil && end && !tapeDropped
+//@   ensures out.KeyFormatType == kb.KeyFormatType && out.KeyCompressionType == kb.KeyCompressionType && out.CryptographicAlgorithm == kb.CryptographicAlgorithm && out.CryptographicLength == kb.CryptographicLength && out.KeyWrappingData == kb.KeyWrappingData
+//@   ensures out.KeyValue != nil && out.KeyValue.Wrapped == nil && out.KeyValue.Plain != nil && out.KeyValue.Plain.KeyMaterial.TransparentECPublicKey == kb.KeyValue.Plain.KeyMaterial.TransparentECPublicKey
+//@   ensures len(kb.KeyValue.Plain.Attribute) > 0 ==> len(out.KeyValue.Plain.Attribute) == len(kb.KeyValue.Plain.Attribute) && arr(out.KeyValue.Plain.Attribute) == arr(kb.KeyValue.Plain.Attribute)
+
+func lemmaMirrorKeyBlockTransparentECPublic(kb, out *KeyBlock) (err error, end bool) {
+	e := ttlv.VerifModelEncoder()
+	e.TagAny(TagKeyBlock, kb)
+	d := ttlv.VerifModelDecoder(&e)
+	err = out.TagDecodeTTLV(&d, TagKeyBlock)
+	return err, ttlv.VerifTapeEnd(&d)
+}
+
+//@ lemma lemmaMirrorKeyBlockTransparentRSAPublic
+//@   requires kb != nil && out != nil && kb != out && !tapeDropped && kb.KeyFormatType == KeyFormatTypeTransparentRSAPublicKey
+//@   requires kb.KeyValue != nil && kb.KeyValue.Wrapped == nil && kb.KeyValue.Plain != nil
+//@   requires kb.KeyValue.Plain.KeyMaterial.Bytes == nil && kb.KeyValue.Plain.KeyMaterial.TransparentSymmetricKey == nil && kb.KeyValue.Plain.KeyMaterial.TransparentRSAPrivateKey == nil && kb.KeyValue.Plain.KeyMaterial.TransparentRSAPublicKey != nil && kb.KeyValue.Plain.KeyMaterial.TransparentECDSAPrivateKey == nil && kb.KeyValue.Plain.KeyMaterial.TransparentECDSAPublicKey == nil && kb.KeyValue.Plain.KeyMaterial.TransparentECPrivateKey == nil && kb.KeyValue.Plain.KeyMaterial.TransparentECPublicKey == nil
+//@   requires out.KeyFormatType == 0 && out.KeyCompressionType == 0 && out.KeyValue == nil && out.CryptographicAlgorithm == 0 && out.CryptographicLength == 0 && out.KeyWrappingData == nil
+//@   usebody (*Encoder).Struct$1
+//@   usebody (*Decoder).Struct$1
+//@   ensures err == nil && end && !tapeDropped
+//@   ensures out.KeyFormatType == kb.KeyFormatType && out.KeyCompressionType == kb.KeyCompressionType && out.CryptographicAlgorithm == kb.CryptographicAlgorithm && out.CryptographicLength == kb.CryptographicLength && out.KeyWrappingData == kb.KeyWrappingData
+//@   ensures out.KeyValue != nil && out.KeyValue.Wrapped == nil && out.KeyValue.Plain != nil && out.KeyValue.Plain.KeyMaterial.TransparentRSAPublicKey == kb.KeyValue.Plain.KeyMaterial.TransparentRSAPublicKey
+//@   ensures len(kb.KeyValue.Plain.Attribute) > 0 ==> len(out.KeyValue.Plain.Attribute) == len(kb.KeyValue.Plain.Attribute) && arr(out.KeyValue.Plain.Attribute) == arr(kb.KeyValue.Plain.Attribute)
+
+func lemmaMirrorKeyBlockTransparentRSAPublic(kb, out *KeyBlock) (err error, end bool) {
+	e := ttlv.VerifModelEncoder()
+	e.TagAny(TagKeyBlock, kb)
+	d := ttlv.VerifModelDecoder(&e)
+	err = out.TagDecodeTTLV(&d, TagKeyBlock)
+	return err, ttlv.VerifTapeEnd(&d)
+}
+
+//@ lemma lemmaMirrorKeyBlockTransparentECDSAPrivate
+//@   requires kb != nil && out != nil && kb != out && !tapeDropped && kb.KeyFormatType == KeyFormatTypeTransparentECDSAPrivateKey
+//@   requires kb.KeyValue != nil && kb.KeyValue.Wrapped == nil && kb.KeyValue.Plain != nil
+//@   requires kb.KeyValue.Plain.KeyMaterial.Bytes == nil && kb.KeyValue.Plain.KeyMaterial.TransparentSymmetricKey == nil && kb.KeyValue.Plain.KeyMaterial.TransparentRSAPrivateKey == nil && kb.KeyValue.Plain.KeyMaterial.TransparentRSAPublicKey == nil && kb.KeyValue.Plain.KeyMaterial.TransparentECDSAPrivateKey != nil && kb.KeyValue.Plain.KeyMaterial.TransparentECDSAPublicKey == nil && kb.KeyValue.Plain.KeyMaterial.TransparentECPrivateKey == nil && kb.KeyValue.Plain.KeyMaterial.TransparentECPublicKey == nil
+//@   requires out.KeyFormatType == 0 && out.KeyCompressionType == 0 && out.KeyValue == nil && out.CryptographicAlgorithm == 0 && out.CryptographicLength == 0 && out.KeyWrappingData == nil
+//@   usebody (*Encoder).Struct$1
+//@   usebody (*Decoder).Struct$1
+//@   ensures err == nil && end && !tapeDropped
+//@   ensures out.KeyFormatType == kb.KeyFormatType && out.KeyCompressionType == kb.KeyCompressionType && out.CryptographicAlgorithm == kb.CryptographicAlgorithm && out.CryptographicLength == kb.CryptographicLength && out.KeyWrappingData == kb.KeyWrappingData
+//@   ensures out.KeyValue != nil && out.KeyValue.Wrapped == nil && out.KeyValue.Plain != nil && out.KeyValue.Plain.KeyMaterial.TransparentECDSAPrivateKey == kb.KeyValue.Plain.KeyMaterial.TransparentECDSAPrivateKey
+//@   ensures len(kb.KeyValue.Plain.Attribute) > 0 ==> len(out.KeyValue.Plain.Attribute) == len(kb.KeyValue.Plain.Attribute) && arr(out.KeyValue.Plain.Attribute) == arr(kb.KeyValue.Plain.Attribute)
+
+func lemmaMirrorKeyBlockTransparentECDSAPrivate(kb, out *KeyBlock) (err error, end bool) {
+	e := ttlv.VerifModelEncoder()
+	e.TagAny(TagKeyBlock, kb)
+	d := ttlv.VerifModelDecoder(&e)
+	err = out.TagDecodeTTLV(&d, TagKeyBlock)
+	return err, ttlv.VerifTapeEnd(&d)
+}
+
+//@ lemma lemmaMirrorKeyBlockTransparentECDSAPublic
+//@   requires kb != nil && out != nil && kb != out && !tapeDropped && kb.KeyFormatType == KeyFormatTypeTransparentECDSAPublicKey
+//@   requires kb.KeyValue != nil && kb.KeyValue.Wrapped == nil && kb.KeyValue.Plain != nil
+//@   requires kb.KeyValue.Plain.KeyMaterial.Bytes == nil && kb.KeyValue.Plain.KeyMaterial.TransparentSymmetricKey == nil && kb.KeyValue.Plain.KeyMaterial.TransparentRSAPrivateKey == nil && kb.KeyValue.Plain.KeyMaterial.TransparentRSAPublicKey == nil && kb.KeyValue.Plain.KeyMaterial.TransparentECDSAPrivateKey == nil && kb.KeyValue.Plain.KeyMaterial.TransparentECDSAPublicKey != nil && kb.KeyValue.Plain.KeyMaterial.TransparentECPrivateKey == nil && kb.KeyValue.Plain.KeyMaterial.TransparentECPublicKey == nil
+//@   requires out.KeyFormatType == 0 && out.KeyCompressionType == 0 && out.KeyValue == nil && out.CryptographicAlgorithm == 0 && out.CryptographicLength == 0 && out.KeyWrappingData == nil
+//@   usebody (*Encoder).Struct$1
+//@   usebody (*Decoder).Struct$1
+//@   ensures err == nil && end && !tapeDropped
+//@   ensures out.KeyFormatType == kb.KeyFormatType && out.KeyCompressionType == kb.KeyCompressionType && out.CryptographicAlgorithm == kb.CryptographicAlgorithm && out.CryptographicLength == kb.CryptographicLength && out.KeyWrappingData == kb.KeyWrappingData
+//@   ensures out.KeyValue != nil && out.KeyValue.Wrapped == nil && out.KeyValue.Plain != nil && out.KeyValue.Plain.KeyMaterial.TransparentECDSAPublicKey == kb.KeyValue.Plain.KeyMaterial.TransparentECDSAPublicKey
+//@   ensures len(kb.KeyValue.Plain.Attribute) > 0 ==> len(out.KeyValue.Plain.Attribute) == len(kb.KeyValue.Plain.Attribute) && arr(out.KeyValue.Plain.Attribute) == arr(kb.KeyValue.Plain.Attribute)
+
+func lemmaMirrorKeyBlockTransparentECDSAPublic(kb, out *KeyBlock) (err error, end bool) {
+	e := ttlv.VerifModelEncoder()
+	e.TagAny(TagKeyBlock, kb)
+	d := ttlv.VerifModelDecoder(&e)
+	err = out.TagDecodeTTLV(&d, TagKeyBlock)
+	return err, ttlv.VerifTapeEnd(&d)
+}
+
+//@ lemma lemmaMirrorKeyBlockTransparentECPrivate
+//@   requires kb != nil && out != nil && kb != out && !tapeDropped && kb.KeyFormatType == KeyFormatTypeTransparentECPrivateKey
+//@   requires kb.KeyValue != nil && kb.KeyValue.Wrapped == nil && kb.KeyValue.Plain != nil
+//@   requires kb.KeyValue.Plain.KeyMaterial.Bytes == nil && kb.KeyValue.Plain.KeyMaterial.TransparentSymmetricKey == nil && kb.KeyValue.Plain.KeyMaterial.TransparentRSAPrivateKey == nil && kb.KeyValue.Plain.KeyMaterial.TransparentRSAPublicKey == nil && kb.KeyValue.Plain.KeyMaterial.TransparentECDSAPrivateKey == nil && kb.KeyValue.Plain.KeyMaterial.TransparentECDSAPublicKey == nil && kb.KeyValue.Plain.KeyMaterial.TransparentECPrivateKey != nil && kb.KeyValue.Plain.KeyMaterial.TransparentECPublicKey == nil
+//@   requires out.KeyFormatType == 0 && out.KeyCompressionType == 0 && out.KeyValue == nil && out.CryptographicAlgorithm == 0 && out.CryptographicLength == 0 && out.KeyWrappingData == nil
+//@   usebody (*Encoder).Struct$1
+//@   usebody (*Decoder).Struct$1
+//@   ensures err == nil && end && !tapeDropped
+//@   ensures out.KeyFormatType == kb.KeyFormatType && out.KeyCompressionType == kb.KeyCompressionType && out.CryptographicAlgorithm == kb.CryptographicAlgorithm && out.CryptographicLength == kb.CryptographicLength && out.KeyWrappingData == kb.KeyWrappingData
+//@   ensures out.KeyValue != nil && out.KeyValue.Wrapped == nil && out.KeyValue.Plain != nil && out.KeyValue.Plain.KeyMaterial.TransparentECPrivateKey == kb.KeyValue.Plain.KeyMaterial.TransparentECPrivateKey
+//@   ensures len(kb.KeyValue.Plain.Attribute) > 0 ==> len(out.KeyValue.Plain.Attribute) == len(kb.KeyValue.Plain.Attribute) && arr(out.KeyValue.Plain.Attribute) == arr(kb.KeyValue.Plain.Attribute)
+
+func lemmaMirrorKeyBlockTransparentECPrivate(kb, out *KeyBlock) (err error, end bool) {
+	e := ttlv.VerifModelEncoder()
+	e.TagAny(TagKeyBlock, kb)
+	d := ttlv.VerifModelDecoder(&e)
+	err = out.TagDecodeTTLV(&d, TagKeyBlock)
+	return err, ttlv.VerifTapeEnd(&d)
+}
+
+//@ lemma lemmaMirrorKeyBlockPKCS8
+//@   requires kb != nil && out != nil && kb != out && !tapeDropped && kb.KeyFormatType == KeyFormatTypePKCS_8
+//@   requires kb.KeyValue != nil && kb.KeyValue.Wrapped == nil && kb.KeyValue.Plain != nil
+//@   requires kb.KeyValue.Plain.KeyMaterial.Bytes != nil && kb.KeyValue.Plain.KeyMaterial.TransparentSymmetricKey == nil && kb.KeyValue.Plain.KeyMaterial.TransparentRSAPrivateKey == nil && kb.KeyValue.Plain.KeyMaterial.TransparentRSAPublicKey == nil && kb.KeyValue.Plain.KeyMaterial.TransparentECDSAPrivateKey == nil && kb.KeyValue.Plain.KeyMaterial.TransparentECDSAPublicKey == nil && kb.KeyValue.Plain.KeyMaterial.TransparentECPrivateKey == nil && kb.KeyValue.Plain.KeyMaterial.TransparentECPublicKey == nil
+//@   requires out.KeyFormatType == 0 && out.KeyCompressionType == 0 && out.KeyValue == nil && out.CryptographicAlgorithm == 0 && out.CryptographicLength == 0 && out.KeyWrappingData == nil
+//@   usebody (*Encoder).Struct$1
+//@   usebody (*Decoder).Struct$1
+//@   ensures err == nil && end && !tapeDropped
+//@   ensures out.KeyFormatType == kb.KeyFormatType && out.KeyCompressionType == kb.KeyCompressionType && out.CryptographicAlgorithm == kb.CryptographicAlgorithm && out.CryptographicLength == kb.CryptographicLength && out.KeyWrappingData == kb.KeyWrappingData
+//@   ensures out.KeyValue != nil && out.KeyValue.Wrapped == nil && out.KeyValue.Plain != nil && out.KeyValue.Plain.KeyMaterial.Bytes != nil && len(*out.KeyValue.Plain.KeyMaterial.Bytes) == len(*kb.KeyValue.Plain.KeyMaterial.Bytes) && arr(*out.KeyValue.Plain.KeyMaterial.Bytes) == arr(*kb.KeyValue.Plain.KeyMaterial.Bytes)
+//@   ensures len(kb.KeyValue.Plain.Attribute) > 0 ==> len(out.KeyValue.Plain.Attribute) == len(kb.KeyValue.Plain.Attribute) && arr(out.KeyValue.Plain.Attribute) == arr(kb.KeyValue.Plain.Attribute)
+
+func lemmaMirrorKeyBlockPKCS8(kb, out *KeyBlock) (err error, end bool) {
+	e := ttlv.VerifModelEncoder()
+	e.TagAny(TagKeyBlock, kb)
+	d := ttlv.VerifModelDecoder(&e)
+	err = out.TagDecodeTTLV(&d, TagKeyBlock)
+	return err, ttlv.VerifTapeEnd(&d)
+}
